@@ -179,12 +179,39 @@ def perturb(rng, V, amp):
     return [[x + rng.uniform(-amp, amp) for x in p] for p in V]
 
 
+def tiny(rng):
+    """a single triangle / two triangles: every edge (but one) on the border"""
+    if rng.random() < 0.5:
+        return [[0.0, 0.0, 0.0], [1.0, 0.1, 0.0], [0.2, 0.9, 0.0]], [(0, 1, 2)], "tri1"
+    return [[0.0, 0.0, 0.0], [1.0, 0.0, 0.0], [1.1, 1.0, 0.2], [0.0, 0.9, 0.0]], [(0, 1, 2), (0, 2, 3)], "quad2"
+
+
 def random_mesh(rng, tier="quick"):
-    """-> dict(kind, V, F, planar, closed)"""
+    """-> dict(kind, V, F, planar): a base surface, then (half of the time) renumbered vertices / rotated faces / shuffled
+    face list, sometimes mirrored orientation (clockwise planar input) and sometimes another length scale"""
+    m = _base_mesh(rng, tier)
+    V, F = m["V"], [list(f) for f in m["F"]]
+    if rng.random() < 0.5:
+        V, F, _, _ = renumber(rng, V, F)
+    if rng.random() < 0.15:
+        F = [[f[0], f[2], f[1]] for f in F]          # the opposite (still consistent) orientation
+    if rng.random() < 0.15:
+        sc = rng.choice([1e-3, 1e3])
+        V = [[x * sc for x in p] for p in V]
+        m["kind"] += "s"
+    m["V"], m["F"] = V, F
+    return m
+
+
+def _base_mesh(rng, tier="quick"):
     big = tier != "quick"
     for _ in range(50):
         r = rng.random()
         planar = False
+        if rng.random() < 0.04:
+            V, F, kind = tiny(rng)
+            planar = kind == "tri1"
+            return {"kind": kind, "V": V, "F": [list(f) for f in F], "planar": planar}
         if r < 0.30:
             nx, ny = rng.choice([(2, 2), (3, 2), (3, 3), (4, 3), (3, 4)] + ([(5, 4), (5, 5)] if big else []))
             planar = rng.random() < 0.5
@@ -243,7 +270,10 @@ def random_config(rng):
         "smooth_normals": rng.random() < 0.6,
         # the order in which the caller uses the public stage methods (every legal order must give the same field)
         "protocol": rng.choice(["init_opt", "init_opt", "run", "run", "call", "init_run", "init_run", "init_call", "init_opt_run",
-                                "run_run", "opt_opt", "init_opt_ns_opt"]),
+                                "run_run", "opt_opt", "init_opt_ns_opt", "early_opt_run", "init_init_opt"]),
+        "callform": rng.choice(["explicit", "explicit", "omit_defaults", "positional", "int_flags"]),
+        "preseed": rng.random() < 0.15,
+        "flag_twice": rng.random() < 0.25,
     }
 
 
